@@ -610,6 +610,14 @@ pub fn generate(w: &mut dyn Write, seed: u64, thorough: bool) {
                 crate::emit_case(w, &a, exec);
             }
         }
+        // chains of identity keys on the client (iPSK0:iPSK1:...:uPSK): bytes compared with the model of the specification
+        if kname == "22a128" || kname == "22a256" {
+            for levels in [2usize, 3] {
+                let iks = (0..levels).map(|_| hex(&rng.bytes(n))).collect::<Vec<_>>().join(",");
+                let e: Vec<String> = vec!["ssudp".into(), "enc".into(), kname.into(), "client".into(), hex(&rng.bytes(n)), iks, "-".into(), now.to_string(), format!("{:x}", rng.next()), "0".into(), "7".into(), "4:7f000001:53".into(), hex(&rng.bytes(33))];
+                crate::emit_case(w, &e, exec);
+            }
+        }
         // replies of two server sessions interleaved (a restarted server, late packets of the old one): the client session has ONE
         // window; an id accepted once is not accepted again whichever server session a later datagram names
         if is22 {
